@@ -33,7 +33,7 @@ def warmup():
 
 
 def cases(tier, seed):
-    sp = tsspace.space(tier)
+    sp = tsspace.space(tier, renumber=("reverse", "rotate"))  # node ids not in time order as well
     out = []
     for a in sp.args:
         for H in dating.H_menu(a, "thorough", hist=False):
@@ -42,7 +42,7 @@ def cases(tier, seed):
         "cases": out,
         "states": sp.states,
         "transitions": sp.transitions,
-        "bound": f"{sp.describe()} x every single internal node fixed (or none) x complete time-vector product x eps {EPS} x iterations {ITERS}",
+        "bound": f"{sp.describe()} (3 node numberings) x every single internal node fixed (or none) x complete time-vector product x eps {EPS} x iterations {ITERS}",
         "exhaustive": True,
     }
 
